@@ -293,6 +293,10 @@ func (c *Ctx) finish(verifDir string, seed int, wall float64, explanation string
 	ev := evidence{PropertyID: c.Prop, Tier: c.Tier, Seed: seed, Level: "other", Coverage: cov,
 		Assumptions: append([]string{}, c.Assumes...), WallS: wall, Violations: nViol + nUnd}
 	ev.Assumptions = append(ev.Assumptions, trusted...)
+	if len(c.w.Excluded) > 0 {
+		ev.Assumptions = append(ev.Assumptions, "the default build configuration (the one the test suite and the binary use) is the one analysed; excluded by build constraints and not analysed: "+strings.Join(c.w.Excluded, ", "))
+		fmt.Printf("%s note: files outside the default build configuration were not analysed: %s\n", c.Prop, strings.Join(c.w.Excluded, ", "))
+	}
 	b, _ := json.MarshalIndent(ev, "", " ")
 	if err := os.WriteFile(filepath.Join(evDir, c.Prop+".json"), b, 0o644); err != nil {
 		fmt.Printf("VIOLATION property=%s replay=%s\n  what cannot write evidence: %v\n", c.Prop, "-", err)
